@@ -7,7 +7,7 @@
 set -u
 export GOFLAGS=-mod=mod GOPROXY=off GOSUMDB=off GOTOOLCHAIN=local; unset GOWORK
 SEED="$1"; shift
-PROPS="${*:-C01 C02 C03 C04 C05 C07 C09 C10 C11 C12 C13 C14 C15 C16 C17}"
+PROPS="${*:-C01 C02 C03 C04 C05 C06 C07 C08 C09 C10 C11 C12 C13 C14 C15 C16 C17}"
 WT=$(mktemp -d /tmp/confirm.XXXXXX)
 git -C /repo worktree add --detach "$WT" HEAD >/dev/null 2>&1 || { echo "cannot create worktree"; exit 2; }
 cleanup() { git -C /repo worktree remove --force "$WT" >/dev/null 2>&1; rm -rf "$WT"; }
